@@ -10,6 +10,8 @@ expressions must each answer (a value or an error) within 10 seconds - no panic,
   D  time offsets: time(h, m, s, offset) with offsets up to and beyond a day and at the i32 limits, compared, rendered, read back
   E  extreme dates: arithmetic at the ends of the year range, huge number arguments of date / time / duration constructors
   F  the three-argument time() and date() with fractional and repeating-decimal components
+  I  control characters (NUL, C0, DEL, NEL, BOM) inside the string arguments of the functions that hand text to the decimal library, to
+     regex and to chrono (number, date, time, duration, matches, replace, split, ...)
   H  context literals with unusual keys (empty, blank, symbols only, keywords) followed by more entries, names and paths
   G  nesting depth 50 and 200 of every nesting construct (parentheses, lists, contexts, negation, if, arithmetic, invocation, function
      definition, for, some, filter, path, between, in, type names) and long literals, each in its own driver process: no stack overflow
@@ -103,6 +105,14 @@ def cases():
         out += ['{%s: 1}' % k, '{%s: 1, a: 2}' % k, '{%s: 1, a: 2}.a' % k, '{%s: 1, a: 2, b: a + 1}' % k, '{%s: {%s: 1}, a: 1}' % (k, k), '[{%s: 1}, {a: 1}]' % k, '{a: 1, %s: a}' % k,
                 'for x in [{%s: 1}] return x' % k, '{%s: 1, a b: 2, c: a b}' % k, '{%s: 1, %s: 2}' % (k, k), '{%s: 1}.%s' % (k, k.strip('"') or 'a'), 'get value({%s: 1}, %s)' % (k, k),
                 'get entries({%s: 1})' % k, '{%s: function(x) x + 1, r: 1}' % k]
+    # ---- I: control characters (also NUL) inside string arguments of the functions that hand text to other libraries (decimal library, regex, chrono)
+    for ch in ('\\u0000', '\\u0001', '\\u0009', '\\u000A', '\\u001F', '\\u007F', '\\u0085', '\\uFEFF'):
+        for t in ('1%s' % ch, '%s1' % ch, '1%s2' % ch, '%s' % ch, '2020-01-02%s' % ch, '%s10:11:12' % ch, 'P1D%s' % ch, 'a%sb' % ch):
+            q = '"%s"' % t
+            out += ['number(%s, null, null)' % q, 'number(%s, ",", ".")' % q, 'number(%s, %s, ".")' % (q, '"%s"' % ch), 'date(%s)' % q, 'time(%s)' % q, 'date and time(%s)' % q, 'duration(%s)' % q,
+                    'years and months duration(date(%s), date("2021-01-01"))' % q, 'matches(%s, "a")' % q, 'matches("a", %s)' % q, 'replace(%s, "a", "b")' % q, 'replace("abc", %s, "x")' % q,
+                    'replace("abc", "b", %s)' % q, 'split(%s, "a")' % q, 'split("abc", %s)' % q, 'contains(%s, "a")' % q, 'string length(%s)' % q, 'upper case(%s)' % q, 'substring(%s, 1, 1)' % q,
+                    'substring before(%s, "a")' % q, 'starts with(%s, "a")' % q, 'string(%s)' % q, '{%s: 1}' % q, '@%s' % q, '%s = %s' % (q, q), '%s < "a"' % q]
     return out
 
 
